@@ -29,11 +29,13 @@ Record state := mkSt {
   keys  : list name;                     (* d.keys *)
   blocked : bool;                        (* d.blocked *)
   stack : list name;                     (* d.callstack, innermost first *)
-  runs  : name -> N                      (* invocation counter of the factories of a name *)
+  runs  : name -> N;                     (* invocation counter of the factories of a name *)
+  wire  : name -> list (option token)    (* ghost: what the dependencies of n's product resolved to
+                                            when it was built (the fields of the instance) *)
 }.
 
 Definition init : state :=
-  mkSt (fun _ => None) (fun _ => None) (fun _ => None) (fun _ => None) [] false [] (fun _ => 0).
+  mkSt (fun _ => None) (fun _ => None) (fun _ => None) (fun _ => None) [] false [] (fun _ => 0) (fun _ => []).
 
 Definition upd {A} (f : name -> A) (n : name) (a : A) : name -> A :=
   fun m => if N.eqb m n then a else f m.
@@ -53,28 +55,28 @@ Definition set_ (s : state) (n : name) (v : N) : state * bool :=
   if isSome (inst s n) then (s, false) else
   if isSome (fac s n) then (s, false) else
   (mkSt (upd (inst s) n (Some (mkTok n KInst v 0))) (fac s) (dfac s) (dinst s)
-        (add_key n (keys s)) (blocked s) (stack s) (runs s), true).
+        (add_key n (keys s)) (blocked s) (stack s) (runs s) (wire s), true).
 
 Definition set_default (s : state) (n : name) (v : N) : state * bool :=
   if blocked s then (s, false) else
   if isSome (dinst s n) then (s, false) else
   if isSome (dfac s n) then (s, false) else
   (mkSt (inst s) (fac s) (dfac s) (upd (dinst s) n (Some (mkTok n KDef v 0)))
-        (add_key n (keys s)) (blocked s) (stack s) (runs s), true).
+        (add_key n (keys s)) (blocked s) (stack s) (runs s) (wire s), true).
 
 Definition add_factory (s : state) (n : name) (id : N) (p : prog) : state * bool :=
   if blocked s then (s, false) else
   if isSome (fac s n) then (s, false) else
   (* clean(name): delete factories[name] (absent) and defaultFactories[name] *)
   (mkSt (inst s) (upd (fac s) n (Some (id, p))) (upd (dfac s) n None) (dinst s)
-        (add_key n (keys s)) (blocked s) (stack s) (runs s), true).
+        (add_key n (keys s)) (blocked s) (stack s) (runs s) (wire s), true).
 
 Definition add_default_factory (s : state) (n : name) (id : N) (p : prog) : state * bool :=
   if blocked s then (s, false) else
   if isSome (dfac s n) then (s, false) else
   if isSome (fac s n) then (s, true) else          (* silently ignored, nil returned *)
   (mkSt (inst s) (fac s) (upd (dfac s) n (Some (id, p))) (dinst s)
-        (add_key n (keys s)) (blocked s) (stack s) (runs s), true).
+        (add_key n (keys s)) (blocked s) (stack s) (runs s) (wire s), true).
 
 (** ** Block: fold the default instances in, freeze. *)
 Definition block (s : state) : state :=
@@ -84,7 +86,7 @@ Definition block (s : state) : state :=
        (fac s)
        (fun n => if moved n then None else dfac s n)
        (fun _ => None)
-       (keys s) true (stack s) (runs s).
+       (keys s) true (stack s) (runs s) (wire s).
 
 (** ** Get *)
 Inductive gres := GOk (t : token) | GErr | GFuel.
@@ -109,34 +111,34 @@ Fixpoint run_deps (g : state -> name -> state * gres) (s : state) (ds : list (na
 
 Definition push (n : name) (s : state) : state :=
   mkSt (inst s) (fac s) (dfac s) (dinst s) (keys s) (blocked s) (n :: stack s)
-       (upd (runs s) n (N.succ (runs s n))).
+       (upd (runs s) n (N.succ (runs s n))) (wire s).
 
 Definition pop (s : state) : state :=
-  mkSt (inst s) (fac s) (dfac s) (dinst s) (keys s) (blocked s) (tl (stack s)) (runs s).
+  mkSt (inst s) (fac s) (dfac s) (dinst s) (keys s) (blocked s) (tl (stack s)) (runs s) (wire s).
 
 (** success of the explicit factory: clean(name) then cache *)
-Definition store_fac (n : name) (t : token) (s : state) : state :=
+Definition store_fac (n : name) (t : token) (w : list (option token)) (s : state) : state :=
   mkSt (upd (inst s) n (Some t)) (upd (fac s) n None) (upd (dfac s) n None) (dinst s)
-       (keys s) (blocked s) (stack s) (runs s).
+       (keys s) (blocked s) (stack s) (runs s) (upd (wire s) n w).
 
 (** success of the default factory: delete(defaultFactories, name) then cache *)
-Definition store_dfac (n : name) (t : token) (s : state) : state :=
+Definition store_dfac (n : name) (t : token) (w : list (option token)) (s : state) : state :=
   mkSt (upd (inst s) n (Some t)) (fac s) (upd (dfac s) n None) (dinst s)
-       (keys s) (blocked s) (stack s) (runs s).
+       (keys s) (blocked s) (stack s) (runs s) (upd (wire s) n w).
 
 (** d.call(name, factory) for a first-order factory: push (and count the invocation), resolve the
     dependencies, pop on every exit, then fail / nil / fresh instance. *)
 Definition call (g : state -> name -> state * gres) (s : state) (n : name) (k : kind) (id : N) (p : prog)
   : state * gres :=
   let s1 := push n s in
-  let '(s2, _, r) := run_deps g s1 (deps p) in
+  let '(s2, w, r) := run_deps g s1 (deps p) in
   let s3 := pop s2 in
   match r with
   | RFuel => (s3, GFuel)
   | RErr => (s3, GErr)
   | ROk => if fails p || returns_nil p then (s3, GErr)
            else let t := mkTok n k id (runs s1 n) in
-                (match k with KFac => store_fac n t s3 | _ => store_dfac n t s3 end, GOk t)
+                (match k with KFac => store_fac n t w s3 | _ => store_dfac n t w s3 end, GOk t)
   end.
 
 Fixpoint get (fuel : nat) (s0 : state) (n : name) : state * gres :=
@@ -204,6 +206,18 @@ Fixpoint run_obs (pool : list name) (ops : list op) (s : state)
   | o :: ops' =>
     let (s', u) := step s o in
     (u, map (runs s') pool, keys s') :: run_obs pool ops' s'
+  end.
+
+(** ghost observation: after each op, the wiring of the instance a successful Get returned *)
+Fixpoint run_wire (ops : list op) (s : state) : list (list (option token)) :=
+  match ops with
+  | [] => []
+  | o :: ops' =>
+    let (s', u) := step s o in
+    match o, u with
+    | OGet n, UGet (GOk _) => wire s' n
+    | _, _ => []
+    end :: run_wire ops' s'
   end.
 
 Definition is_def (o : op) : bool :=
